@@ -29,6 +29,25 @@ NOT_DECIDED = "blocking behaviour of the engines; interleavings"
 CORE = 'pony.orm.core'
 
 
+def lockset_commit_rule(ctx, P='C35-LOCKSET'):
+    # shared with C20: the exemption from the optimistic check (`obj in cache.for_update`) is only sound while the row lock is held
+    repo, cg = ctx.repo, ctx.cg
+    sc_ = repo.cls(CORE, 'SessionCache')
+    nce = 0
+    for name_, m_ in sorted(sc_.methods.items()):
+        if not any(isinstance(c.func, ast.Attribute) and c.func.attr == 'commit' and 'provider' in norm(c.func.value) for c in calls_in(m_.node)): continue
+        gm_ = cg.cfg(m_)
+        clears = nodes_calling(gm_, lambda c: isinstance(c.func, ast.Attribute) and c.func.attr == 'clear' and norm(c.func.value).endswith('.for_update'))
+        clears += [x for x in gm_.nodes if x.kind == 'stmt' and isinstance(x.ast, ast.Assign) and any(isinstance(t, ast.Attribute) and t.attr == 'for_update' for t in x.ast.targets)]
+        nce += 1
+        r_ = gm_.reach([gm_.entry], avoid=clears, edge_ok=lambda x, y, lab: lab != 'exc')
+        ok = bool(clears) and gm_.exit.id not in r_
+        ctx.ob(P + '.emptied-on-every-path-through-commit', m_, clears[0].ast if clears else m_.node, ok,
+               '' if ok else 'SessionCache.%s can return normally without emptying cache.for_update: the objects locked (or created) in the finished transaction keep their exemption from '
+               'the optimistic check, and get_for_update() finds them "already locked" although the database lock is gone' % name_)
+    ctx.floor(P, nce, 1, 'SessionCache methods that commit the transaction')
+
+
 def run(ctx):
     repo, cg = ctx.repo, ctx.cg
     # ---------------------------------------------------------------- LOCKSET
@@ -75,20 +94,7 @@ def run(ctx):
     # where the set is replaced), so every normal path through a SessionCache method that calls provider.commit empties the set -- whatever the
     # state of `cache.modified` / `cache.in_transaction`.  Otherwise get_for_update() after an intermediate commit() is served from the cache without
     # a new lock or re-read, and the optimistic check is skipped for a row that is no longer locked.
-    sc_ = repo.cls(CORE, 'SessionCache')
-    nce = 0
-    for name_, m_ in sorted(sc_.methods.items()):
-        if not any(isinstance(c.func, ast.Attribute) and c.func.attr == 'commit' and 'provider' in norm(c.func.value) for c in calls_in(m_.node)): continue
-        gm_ = cg.cfg(m_)
-        clears = nodes_calling(gm_, lambda c: isinstance(c.func, ast.Attribute) and c.func.attr == 'clear' and norm(c.func.value).endswith('.for_update'))
-        clears += [x for x in gm_.nodes if x.kind == 'stmt' and isinstance(x.ast, ast.Assign) and any(isinstance(t, ast.Attribute) and t.attr == 'for_update' for t in x.ast.targets)]
-        nce += 1
-        r_ = gm_.reach([gm_.entry], avoid=clears, edge_ok=lambda x, y, lab: lab != 'exc')
-        ok = bool(clears) and gm_.exit.id not in r_
-        ctx.ob('C35-LOCKSET.emptied-on-every-path-through-commit', m_, clears[0].ast if clears else m_.node, ok,
-               '' if ok else 'SessionCache.%s can return normally without emptying cache.for_update: the objects locked (or created) in the finished transaction keep their exemption from '
-               'the optimistic check, and get_for_update() finds them "already locked" although the database lock is gone' % name_)
-    ctx.floor('C35-LOCKSET', nce, 1, 'SessionCache methods that commit the transaction')
+    lockset_commit_rule(ctx)
     # ---------------------------------------------------------------- RELOCK
     fc = repo.fn(CORE, 'EntityMeta._find_in_cache_'); g = cg.cfg(fc)
     # scenario evaluation: for_update requested and the object not in cache.for_update (tested directly or through a local holding the set)
